@@ -244,8 +244,8 @@ def dest_ref(shp, org=(1, 1)):
 OBS = ['cell-lit', 'cell-rng', 'cell-op', 'push-array', 'push-nd', 'push-list', 'push-ranges', 'push-scalar']
 
 
-def observe_fit(obs, v, dshape, org):
-    d = dest_ref(dshape, org)
+def observe_fit(obs, v, dshape, org, d=None):
+    d = d or dest_ref(dshape, org)
     scalar = not isinstance(v, list)
     vm = [[v]] if scalar else v
     if obs == 'cell-lit':
@@ -316,6 +316,52 @@ def check_fit(case):
                       '%s of %r into %s: got %r, expected %r' % (obs, v, dest_ref(dshape, org), got, exp)))
     labels = ['part:fit', 'obs:' + obs, 'fit:' + tag] + ['kind:' + k for k in sorted(kinds_of(v))]
     return R(fails, nt=[['fit', obs, list(vshape), scalar, list(dshape), list(org)]] if tag != 'identity' else None, labels=labels)
+
+
+NCOLS = 16384
+OPEN_ROWS = {'1:1': 1, '1:2': 2, '3:3': 1, '2:4': 3}
+
+
+def check_fit_rows(case):
+    """Fitting into a destination that is a run of whole rows (1:2): the same rule as for a bounded rectangle, over all
+    16384 columns - checked on the shape, the first 6 columns (values have at most 4) and the last column."""
+    obs, v, d = case['obs'], dec(case['v']), case['dest']
+    nrows = OPEN_ROWS[d]
+    scalar = not isinstance(v, list)
+    shown = v
+    if obs in ('cell-rng', 'cell-op'):
+        shown = [[0.0 if isinstance(x, Blank) else x for x in row] for row in v] if not scalar else (0.0 if isinstance(v, Blank) else v)
+    exp = L.fit(shown, nrows, 7)
+    got = observe_fit(obs, v, (nrows, NCOLS), (1, 1), d=d)
+    fails = []
+    if got is None or len(got) != nrows or any(len(g) != NCOLS for g in got):
+        fails.append(('fit|whole-rows|%s|shape' % obs, '%s of %r into %s: got %s' % (
+            obs, v, d, None if got is None else 'a matrix of %d rows x %s columns' % (len(got), sorted({len(g) for g in got})))))
+    else:
+        head = [g[:6] for g in got]
+        last = [[g[-1]] for g in got]
+        if L.same_matrix(head, [e[:6] for e in exp]) is not None or L.same_matrix(last, [[e[6]] for e in exp]) is not None:
+            fails.append(('fit|whole-rows|%s|values' % obs, '%s of %r into %s: first columns %r, last column %r, expected %r .. %r' % (
+                obs, v, d, head, last, [e[:6] for e in exp], [[e[6]] for e in exp])))
+    return R(fails, nt=[['fit-rows', obs, list(L.shape(v)), scalar, d]], labels=['part:fit-rows', 'obs:' + obs, 'fit:whole-rows'])
+
+
+def enum_fit_rows(tier, seed):
+    rnd = __import__('random').Random(seed * 7919 + 5)
+    for vs in [None, (1, 1), (1, 3), (2, 1), (2, 3), (3, 2), (1, 4)]:
+        for d in OPEN_ROWS:
+            for obs in ('cell-lit', 'cell-rng', 'push-array', 'push-nd', 'push-scalar'):
+                if (obs == 'push-scalar') != (vs is None) and obs == 'push-scalar':
+                    continue
+                if vs is not None and vs[0] > OPEN_ROWS[d]:
+                    continue  # truncation re-flows in the repo (listed finding, asserted on bounded rectangles by the 'fit' part)
+                if vs is None:
+                    v = rnd.choice([5.0, 'a', True, -2.5])
+                else:
+                    v = distinct_fill(rnd, vs, False)
+                    if obs == 'push-nd' and L.shape(v)[0] * L.shape(v)[1] == OPEN_ROWS[d] * NCOLS:
+                        continue
+                yield {'k': 'fit-rows', 'obs': obs, 'v': enc(v), 'dest': d}
 
 
 # --------------------------------------------------------------------------
@@ -636,6 +682,8 @@ def check_case(case):
         return check_nest(case)
     if case['k'] == 'fit':
         return check_fit(case)
+    if case['k'] == 'fit-rows':
+        return check_fit_rows(case)
     if case['k'] == 'lift':
         return check_lift(case)
     raise ValueError(case['k'])
@@ -946,6 +994,7 @@ def parts(tier, seed):
 def _parts(tier, seed, q):
     return [
         ('enum', 'fit', enum_fit(tier, seed), 100, False),
+        ('enum', 'fit-whole-rows', enum_fit_rows(tier, seed), 10, False),
         ('enum', 'operators', enum_ops(tier, seed), 60, False),
         ('enum', 'functions', enum_funcs(tier, seed), 60, False),
         ('enum', 'many', enum_many(tier, seed), 20, False),
